@@ -541,11 +541,13 @@ def sx_sorted(it, *, key=None, reverse=False):
 
 
 class SymDict(dict):
-    """dict that keeps symbolic keys in a side association list (lookups fork on key equality)."""
+    """dict that may hold symbolic keys: ONE association list in insertion order (Python dicts are ordered and the
+    library relies on it, e.g. `list(shading_d)`); lookups fork on key equality; concrete-only use stays O(1)."""
 
     def __init__(self, *a, **kw):
         super().__init__()
-        self._sym = []
+        self._pairs = []            # [key, value] in insertion order (all keys)
+        self._has_sym = False
         src = a[0] if a else {}
         for k, v in (src.items() if hasattr(src, "items") else src):
             self[k] = v
@@ -553,71 +555,82 @@ class SymDict(dict):
             self[k] = v
 
     def _find(self, k):
-        for i, (kk, _) in enumerate(self._sym):
-            if _eq(kk, k):
+        if not self._has_sym and not is_sym(k):
+            if not dict.__contains__(self, k):
+                return -1
+            for i, p in enumerate(self._pairs):
+                if p[0] == k:
+                    return i
+            return -1
+        for i, p in enumerate(self._pairs):
+            if _eq(p[0], k):
                 return i
         return -1
 
     def __setitem__(self, k, v):
-        if is_sym(k):
-            for ck in list(dict.keys(self)):
-                if _eq(ck, k):
-                    dict.__setitem__(self, ck, v)
-                    return
-        i = self._find(k) if self._sym else -1
+        i = self._find(k)
         if i >= 0:
-            self._sym[i] = (self._sym[i][0], v)
-        elif is_sym(k):
-            self._sym.append((k, v))
+            self._pairs[i][1] = v
+            key = self._pairs[i][0]
+            if not is_sym(key) and dict.__contains__(self, key):
+                dict.__setitem__(self, key, v)      # keep the C-level view (``**d``, json) in step
+            return
+        self._pairs.append([k, v])
+        if is_sym(k):
+            self._has_sym = True
         else:
-            dict.__setitem__(self, k, v)
+            try:
+                dict.__setitem__(self, k, v)        # concrete keys also live in the real dict (C-level consumers, fast lookups)
+            except TypeError:
+                self._has_sym = True
 
     def __getitem__(self, k):
-        for kk, v in self.items():
-            if _eq(kk, k):
-                return v
-        raise KeyError(k)
+        i = self._find(k)
+        if i < 0:
+            raise KeyError(k)
+        return self._pairs[i][1]
 
     def get(self, k, d=None):
-        if not self._sym and not is_sym(k):
-            return dict.get(self, k, d)
-        for kk, v in self.items():
-            if _eq(kk, k):
-                return v
-        return d
+        i = self._find(k)
+        return d if i < 0 else self._pairs[i][1]
 
     def setdefault(self, k, d=None):
-        for kk, v in self.items():
-            if _eq(kk, k):
-                return v
+        i = self._find(k)
+        if i >= 0:
+            return self._pairs[i][1]
         self[k] = d
         return d
 
     def __contains__(self, k):
-        if not self._sym and not is_sym(k):
-            return dict.__contains__(self, k)
-        return any(_eq(kk, k) for kk in self.keys())
+        return self._find(k) >= 0
 
-    def keys(self): return list(dict.keys(self)) + [k for k, _ in self._sym]
-    def values(self): return list(dict.values(self)) + [v for _, v in self._sym]
-    def items(self): return list(dict.items(self)) + list(self._sym)
+    def keys(self): return [p[0] for p in self._pairs]
+    def values(self): return [p[1] for p in self._pairs]
+    def items(self): return [(p[0], p[1]) for p in self._pairs]
     def __iter__(self): return iter(self.keys())
-    def __len__(self): return dict.__len__(self) + len(self._sym)
-    def __bool__(self): return len(self) > 0
+    def __reversed__(self): return iter(list(reversed(self.keys())))
+    def __len__(self): return len(self._pairs)
+    def __bool__(self): return bool(self._pairs)
     def copy(self): return SymDict(self.items())
 
+    def __delitem__(self, k):
+        self.pop(k)
+
     def pop(self, k, *d):
-        if not self._sym and not is_sym(k):
-            return dict.pop(self, k, *d)
         i = self._find(k)
-        if i >= 0:
-            return self._sym.pop(i)[1]
-        for ck in list(dict.keys(self)):
-            if _eq(ck, k):
-                return dict.pop(self, ck)
-        if d:
-            return d[0]
-        raise KeyError(k)
+        if i < 0:
+            if d:
+                return d[0]
+            raise KeyError(k)
+        key, v = self._pairs.pop(i)
+        if dict.__contains__(self, key) if not is_sym(key) else False:
+            dict.__delitem__(self, key)
+        return v
+
+    def clear(self):
+        self._pairs = []
+        self._has_sym = False
+        dict.clear(self)
 
     def update(self, *a, **kw):
         for k, v in SymDict(*a, **kw).items():
@@ -638,13 +651,11 @@ class SymDict(dict):
     def __ne__(self, o):
         return not self.__eq__(o)
 
+    def __repr__(self):
+        return "SymDict(" + repr(self.items()) + ")"
+
 
 def sx_mkdict(keys, values):
-    if not any(is_sym(k) for k in keys):
-        d = SymDict()
-        for k, v in zip(keys, values):
-            dict.__setitem__(d, k, v)
-        return d
     d = SymDict()
     for k, v in zip(keys, values):
         d[k] = v
